@@ -24,8 +24,10 @@ def _find_priority_store(f):
     hits = []
     for n in walk_live(f.node):
         if isinstance(n, ast.Assign) and len(n.targets) == 1 and isinstance(n.targets[0], ast.Subscript):
-            for s in ast.walk(n.value):
+            v = W.canon_ast(f.node, n.value, n)
+            for s in ast.walk(v):
                 if isinstance(s, ast.Subscript) and _self_attr(s.value, "order"):
+                    n._canon_value = v
                     hits.append(n)
                     break
     return hits
@@ -133,7 +135,7 @@ def rule_radix(P, files=EARLEYS):
             raise AnalysisError(f"{f.qual}: expected exactly one agenda-priority store mentioning self.order[...], "
                                 f"found {len(stores)}")
         st = stores[0]
-        k = parse_key(f, st.value)
+        k = parse_key(f, getattr(st, '_canon_value', st.value))
         cls = f.cls
         init, defs = _init_attr_def(P, cls, k["radix"].attr)
         r.looked_at(init)
@@ -326,7 +328,7 @@ def rule_dep_order(P, which=("earley", "agenda", "solvers")):
             stores = _find_priority_store(upd)
             if len(stores) != 1:
                 raise AnalysisError(f"{upd.qual}: agenda-priority store not found")
-            k = parse_key(upd, stores[0].value)
+            k = parse_key(upd, getattr(stores[0], '_canon_value', stores[0].value))
             heap = _heap_kind(P, upd, stores[0], init)
             # max-heap + negative key  => smaller code first => lower bucket first
             lower_first = (heap == "max" and k["sign"] < 0) or (heap == "min" and k["sign"] > 0)
